@@ -4,6 +4,7 @@ import sink
 import obs
 
 ID = "C15"
+ENV_RERUN = 40          # cases repeated from a cargo build-script environment (lib/runner.py with_build_env)
 TABLES = ["scalar"]      # leaf tables compared exhaustively through the hooks (coq/Check/Tables.v)
 REQUIRES = ["Agree", "C15Spec", "Truth"]
 THEOREM_REQUIRES = ["C15"]
